@@ -114,8 +114,16 @@ Definition vals_ascii (d : dict) : bool := forallb (fun kv => all_ascii (snd kv)
 Definition keys_lower_ok (d : dict) : bool := forallb (fun kv => negb (String.eqb (lower (fst kv)) "__class__")) d.
 Definition vals_lower_ok (d : dict) : bool := forallb (fun kv => negb (String.eqb (lower (snd kv)) "__class__")) d.
 
+(* on ASCII text the model's lower() (C17/Case.v: str.lower() on UTF-8 text) is the ASCII lower() of the embedding *)
+Lemma lower_ascii s : all_ascii s = true -> lower s = Str.lower s.
+Proof.
+  intros H. apply lower_single_bytes. unfold all_ascii in H. revert H.
+  induction s as [|a r IH]; cbn [all_chars]; [reflexivity|].
+  intros H. apply andb_true_iff in H as [Ha Hr]. rewrite (ascii_is_K1 a Ha), (IH Hr). reflexivity.
+Qed.
+
 Lemma p2_lower_ascii s : all_ascii s = true -> p2_lower (PStr s) = PStr (lower s).
-Proof. intros H. cbn. rewrite H. reflexivity. Qed.
+Proof. intros H. rewrite (lower_ascii s H). cbn. rewrite H. reflexivity. Qed.
 
 Lemma forallb_In {A} (p : A -> bool) l x : forallb p l = true -> In x l -> p x = true.
 Proof. intros H Hx. rewrite forallb_forall in H. apply H, Hx. Qed.
